@@ -115,6 +115,65 @@ pub proof fn lemma_round_up_8(a: nat)
     }
 }
 
+// ---- round_up is the LEAST multiple of a that is >= x; consequences ----
+pub proof fn lemma_round_up_least(x: nat, a: nat, m: nat)
+    requires a > 0, m % a == 0, m >= x
+    ensures round_up(x, a) <= m
+{
+    let k = m / a;
+    vstd::arithmetic::div_mod::lemma_fundamental_div_mod(m as int, a as int);
+    assert(m == a * k);
+    // (x + a - 1) / a <= (m + a - 1) / a == k
+    vstd::arithmetic::div_mod::lemma_div_is_ordered((x + a - 1) as int, (m + a - 1) as int, a as int);
+    assert(m + a - 1 == k * a + (a - 1)) by (nonlinear_arith) requires m == a * k;
+    vstd::arithmetic::div_mod::lemma_fundamental_div_mod_converse((m + a - 1) as int, a as int, k as int, (a - 1) as int);
+    let q = (x + a - 1) as nat / a;
+    assert(q <= k);
+    assert(q * a <= k * a) by (nonlinear_arith) requires q <= k, a > 0;
+    assert(k * a == m) by (nonlinear_arith) requires m == a * k;
+}
+pub proof fn lemma_round_up_shift(x: nat, a: nat)
+    requires a > 0
+    ensures round_up(a + x, a) == a + round_up(x, a)
+{
+    // (x + a - 1 + 1 * a) / a == (x + a - 1) / a + 1
+    vstd::arithmetic::div_mod::lemma_hoist_over_denominator((x + a - 1) as int, 1, a);
+    let q = (x + a - 1) as nat / a;
+    assert((a + x + a - 1) as nat / a == q + 1);
+    assert((q + 1) * a == a + q * a) by (nonlinear_arith);
+}
+pub proof fn lemma_multiple_of_multiple(r: nat, big: nat, small: nat)
+    requires small > 0, big > 0, big % small == 0, r % big == 0
+    ensures r % small == 0
+{
+    let c = big / small;
+    let q = r / big;
+    vstd::arithmetic::div_mod::lemma_fundamental_div_mod(big as int, small as int);
+    vstd::arithmetic::div_mod::lemma_fundamental_div_mod(r as int, big as int);
+    assert(r == (q * c) * small) by (nonlinear_arith) requires r == big * q, big == small * c;
+    vstd::arithmetic::div_mod::lemma_mod_multiples_basic((q * c) as int, small as int);
+}
+/// padding the value to its own alignment first (as allocate_for_header_and_slice does) does not
+/// change the padded block size, when the value alignment divides the block alignment
+pub proof fn lemma_inner_pad_harmless(x: nat, av: nat, big: nat)
+    requires av > 0, big > 0, big % av == 0
+    ensures round_up(big + round_up(x, av), big) == round_up(big + x, big)
+{
+    let y = round_up(x, av);
+    lemma_round_up(x, av);
+    lemma_round_up(x, big);
+    lemma_round_up(y, big);
+    lemma_round_up_shift(y, big);
+    lemma_round_up_shift(x, big);
+    // round_up(x,big) <= round_up(y,big): the latter is a multiple of big that is >= y >= x
+    lemma_round_up_least(x, big, round_up(y, big));
+    // y <= round_up(x,big): the latter is a multiple of av that is >= x
+    lemma_multiple_of_multiple(round_up(x, big), big, av);
+    lemma_round_up_least(x, av, round_up(x, big));
+    // hence round_up(y,big) <= round_up(x,big)
+    lemma_round_up_least(y, big, round_up(x, big));
+}
+
 '''
 
 LAYOUT_TEMPLATE = r'''
@@ -187,9 +246,12 @@ fn x_allocate_for_header_and_slice<H, T>(len: usize) -> (layout: Layout)
         size_of::<H>() + (len as nat) * size_of::<T>() + 2 * align_of::<H>() + 2 * align_of::<T>() <= isize::MAX as nat,
     ensures
         lalign(layout) == hs_av::<H, T>(),
-        lsize(layout) == hs_size::<H, T>(len as nat),
+        // stated on the RESULT: padded to its own alignment the value layout is the repr(C) size of
+        // HeaderSlice<H, [T; len]> — whether or not the statement itself already pads (the inner
+        // pad_to_align is redundant: lemma_block_of_value_layout below), so removing it stays green
+        round_up(lsize(layout), hs_av::<H, T>()) == hs_size::<H, T>(len as nat),
         lsize(layout) >= size_of::<H>() + len as nat * size_of::<T>(),
-        lsize(layout) % lalign(layout) == 0,
+        lsize(layout) <= hs_size::<H, T>(len as nat),
         lvalid(layout),
 {
     proof {
@@ -197,12 +259,24 @@ fn x_allocate_for_header_and_slice<H, T>(len: usize) -> (layout: Layout)
         lemma_round_up(len as nat * size_of::<T>(), align_of::<T>());
         lemma_round_up(size_of::<H>(), align_of::<T>());
         lemma_round_up((round_up(size_of::<H>(), align_of::<T>()) + len as nat * size_of::<T>()) as nat, hs_av::<H, T>());
-        // padding an already padded size changes nothing (lvalid of the result)
+        // padding an already padded size changes nothing
         lemma_pad_idem(hs_size::<H, T>(len as nat), hs_av::<H, T>());
     }
     /* ---- verbatim from src/arc.rs fn allocate_for_header_and_slice ---- */
     @ALLOCATE_HS@
     layout
+}
+
+// the block allocate_for_layout requests for such a value layout is the same whether the value
+// layout was padded first or not
+pub proof fn lemma_block_of_value_layout(vsize: nat, av: nat, padded: nat)
+    requires av > 0, align_ok(av), round_up(vsize, av) == padded
+    ensures round_up((max_nat(8, av) + vsize) as nat, max_nat(8, av)) == round_up((max_nat(8, av) + padded) as nat, max_nat(8, av))
+{
+    let big = max_nat(8, av);
+    lemma_round_up_8(av);
+    assert(big % av == 0) by { if av > 8 { assert(av % av == 0) by (nonlinear_arith) requires av > 0; } }
+    lemma_inner_pad_harmless(vsize, av, big);
 }
 
 // ---- L2: ArcInner::offset_of_data, for every (possibly unsized) payload --------------------------
@@ -252,65 +326,6 @@ pub open spec fn hs_av<H, T>() -> nat { max_nat(align_of::<H>(), align_of::<T>()
 pub open spec fn hs_size<H, T>(len: nat) -> nat {
     round_up((round_up(size_of::<H>(), align_of::<T>()) + len * size_of::<T>()) as nat, hs_av::<H, T>())
 }
-// ---- round_up is the LEAST multiple of a that is >= x; consequences ----
-pub proof fn lemma_round_up_least(x: nat, a: nat, m: nat)
-    requires a > 0, m % a == 0, m >= x
-    ensures round_up(x, a) <= m
-{
-    let k = m / a;
-    vstd::arithmetic::div_mod::lemma_fundamental_div_mod(m as int, a as int);
-    assert(m == a * k);
-    // (x + a - 1) / a <= (m + a - 1) / a == k
-    vstd::arithmetic::div_mod::lemma_div_is_ordered((x + a - 1) as int, (m + a - 1) as int, a as int);
-    assert(m + a - 1 == k * a + (a - 1)) by (nonlinear_arith) requires m == a * k;
-    vstd::arithmetic::div_mod::lemma_fundamental_div_mod_converse((m + a - 1) as int, a as int, k as int, (a - 1) as int);
-    let q = (x + a - 1) as nat / a;
-    assert(q <= k);
-    assert(q * a <= k * a) by (nonlinear_arith) requires q <= k, a > 0;
-    assert(k * a == m) by (nonlinear_arith) requires m == a * k;
-}
-pub proof fn lemma_round_up_shift(x: nat, a: nat)
-    requires a > 0
-    ensures round_up(a + x, a) == a + round_up(x, a)
-{
-    // (x + a - 1 + 1 * a) / a == (x + a - 1) / a + 1
-    vstd::arithmetic::div_mod::lemma_hoist_over_denominator((x + a - 1) as int, 1, a);
-    let q = (x + a - 1) as nat / a;
-    assert((a + x + a - 1) as nat / a == q + 1);
-    assert((q + 1) * a == a + q * a) by (nonlinear_arith);
-}
-pub proof fn lemma_multiple_of_multiple(r: nat, big: nat, small: nat)
-    requires small > 0, big > 0, big % small == 0, r % big == 0
-    ensures r % small == 0
-{
-    let c = big / small;
-    let q = r / big;
-    vstd::arithmetic::div_mod::lemma_fundamental_div_mod(big as int, small as int);
-    vstd::arithmetic::div_mod::lemma_fundamental_div_mod(r as int, big as int);
-    assert(r == (q * c) * small) by (nonlinear_arith) requires r == big * q, big == small * c;
-    vstd::arithmetic::div_mod::lemma_mod_multiples_basic((q * c) as int, small as int);
-}
-/// padding the value to its own alignment first (as allocate_for_header_and_slice does) does not
-/// change the padded block size, when the value alignment divides the block alignment
-pub proof fn lemma_inner_pad_harmless(x: nat, av: nat, big: nat)
-    requires av > 0, big > 0, big % av == 0
-    ensures round_up(big + round_up(x, av), big) == round_up(big + x, big)
-{
-    let y = round_up(x, av);
-    lemma_round_up(x, av);
-    lemma_round_up(x, big);
-    lemma_round_up(y, big);
-    lemma_round_up_shift(y, big);
-    lemma_round_up_shift(x, big);
-    // round_up(x,big) <= round_up(y,big): the latter is a multiple of big that is >= y >= x
-    lemma_round_up_least(x, big, round_up(y, big));
-    // y <= round_up(x,big): the latter is a multiple of av that is >= x
-    lemma_multiple_of_multiple(round_up(x, big), big, av);
-    lemma_round_up_least(x, av, round_up(x, big));
-    // hence round_up(y,big) <= round_up(x,big)
-    lemma_round_up_least(y, big, round_up(x, big));
-}
-
 // ---- the Kani-side closed forms, extracted VERBATIM from harness/vrt.rs ----
 fn spec_off(align: usize) -> (r: usize)
     ensures r as nat == max_nat(8, align as nat)
